@@ -9,10 +9,11 @@ atomic action of one thread (or of one timer goroutine); a schedule is a list of
 theorems quantify over all schedules.
 
   idle --select--> selected h --reserve--> forwarding h --finish o--> (Conns--) done | failed h
-                                                                        failed h --countFail--> idle | done
+                        \--(cap reached)--> idle                       failed h --countFail--> idle | done
 
 `select` is a sound policy call made on the state of that moment (`Available()`); `reserve` is
-`atomic.AddInt64(&host.Conns, 1)` (unconditional: the cap was only looked at by `select`); `finish` is the
+`UpstreamHost.reserve` (one compare-and-swap: count the request in unless the cap is reached, in which
+case the thread selects again); `finish` is the
 return (or panic) of `proxy.ServeHTTP` together with the deferred decrement; `countFail` is
 `Fails++` plus the start of the timer goroutine; `timer` is that goroutine's `Fails--`.
 
@@ -73,7 +74,7 @@ inductive Event where
   /-- thread `t` calls Select and is handed `choice` (a sound policy: an available backend, or none) ;
   `again`: what keepRetrying answers when there is none -/
   | select (t : Nat) (choice : Option Nat) (again : Bool)
-  /-- thread `t` counts itself in on the backend it selected -/
+  /-- thread `t` reserves a slot on the backend it selected (or finds the cap reached and selects again) -/
   | reserve (t : Nat)
   /-- the round trip of thread `t` ends with outcome `o`; the deferred `Conns--` runs -/
   | finish (t : Nat) (o : Outcome)
@@ -97,7 +98,8 @@ def step (c : Cfg) (s : State) : Event → Option State
   | .reserve t =>
     match s.pcs[t]? with
     | some (.selected h) =>
-      some (setPC { s with conns := bump s.conns h 1 } t (.forwarding h))
+      if full c s h then some (setPC s t .idle)
+      else some (setPC { s with conns := bump s.conns h 1 } t (.forwarding h))
     | _ => none
   | .finish t o =>
     match s.pcs[t]? with
@@ -180,7 +182,13 @@ def advance (c : Cfg) (ex : Expiry) (s : State) (t x : Nat) : State × Label :=
     | none => (stepD c s (.select t none false), .none)
   | some (.selected h) =>
     let s' := stepD c s (.reserve t)
-    (s', if s'.pcs[t]? == some (.forwarding h) then .fwd h else .lost h)
+    if s'.pcs[t]? == some (.forwarding h) then (s', .fwd h)
+    else
+      -- the slot was lost: the thread calls Select again at once; with no backend available that
+      -- call returns nil before any policy is consulted and the request ends (retries are off)
+      match firstAvail c s' with
+      | some _ => (s', .lost h)
+      | none => (stepD c s' (.select t none false), .lost h)
   | some (.forwarding h) =>
     let o := decodeOutcome x
     let s1 := stepD c s (.finish t o)
